@@ -12,8 +12,20 @@ structure MonSt where
   mon : C17.MonState := {}
   deriving Inhabited
 
+def hexVal (c : Char) : Nat :=
+  if '0' ≤ c ∧ c ≤ '9' then c.toNat - '0'.toNat
+  else if 'a' ≤ c ∧ c ≤ 'f' then c.toNat - 'a'.toNat + 10
+  else 0
+
+/-- a key on the wire: lower-case hex of the configured bytes (`""` = nil) -/
+def hexBytes (s : String) : CookieKey :=
+  let rec go : List Char → List Nat
+    | a :: b :: rest => (hexVal a * 16 + hexVal b) :: go rest
+    | _ => []
+  go s.toList
+
 def parseCfg (l : Line) : C17.Cfg :=
-  { hashKey := nat l "hk", blockKey := nat l "bk", clientID := str l "cid", redirectURI := str l "ruri",
+  { hashKey := hexBytes (str l "hk"), blockKey := hexBytes (str l "bk"), clientID := str l "cid", redirectURI := str l "ruri",
     scopes := list l "sc", pkce := bool l "pkce" }
 
 def nth (xs : List String) (i : Nat) : String := xs.getD i ""
@@ -29,7 +41,7 @@ def parseCookies (l : Line) (p : String) : List Http.Cookie :=
   let ages := list l (p ++ "age")
   (List.range ns.length).map fun i =>
     let val : CookieVal :=
-      if nth ks i == "m" then .minted ((nth hks i).toNat?.getD 0) ((nth bks i).toNat?.getD 0) (nth cns i) (nth vs i)
+      if nth ks i == "m" then .minted (hexBytes (nth hks i)) (hexBytes (nth bks i)) (nth cns i) (nth vs i)
       else .plain (nth vs i)
     { Name := nth ns i, Value := val, MaxAge := (nth ages i).toInt?.getD 0 }
 
